@@ -83,11 +83,21 @@ type Lemma struct {
 	Line  int
 }
 
+type Define struct {
+	Name   string
+	Params []string
+	Body   ast.Expr
+	Src    string
+	File   string
+	Line   int
+}
+
 type SpecSet struct {
 	Contracts map[string]*Contract
 	Order     []string
 	Ghosts    []GhostDecl
 	Lemmas    []*Lemma
+	Defines   map[string]*Define
 }
 
 var tagRe = regexp.MustCompile(`^\[([A-Za-z0-9_, ]+)\]\s*`)
@@ -189,6 +199,32 @@ func (ss *SpecSet) parseFile(path string, dep bool) error {
 				return fmt.Errorf("%s:%d: ghost <name> <sort>", path, ln+1)
 			}
 			ss.Ghosts = append(ss.Ghosts, GhostDecl{Name: f[0], Sort: strings.TrimSpace(f[1])})
+		case "define":
+			// define name(a, b, c) = expr
+			eq := strings.Index(rest, "=")
+			op := strings.Index(rest, "(")
+			cp := strings.Index(rest, ")")
+			if eq < 0 || op < 0 || cp < 0 || cp > eq {
+				return fmt.Errorf("%s:%d: define name(params) = expr", path, ln+1)
+			}
+			name := strings.TrimSpace(rest[:op])
+			var params []string
+			for _, p := range strings.Split(rest[op+1:cp], ",") {
+				p = strings.TrimSpace(p)
+				if p != "" {
+					params = append(params, strings.Fields(p)[0])
+				}
+			}
+			body := strings.TrimSpace(rest[eq+1:])
+			e, err := parser.ParseExpr(body)
+			if err != nil {
+				return fmt.Errorf("%s:%d: cannot parse %q: %v", path, ln+1, body, err)
+			}
+			if ss.Defines == nil {
+				ss.Defines = map[string]*Define{}
+			}
+			ss.Defines[name] = &Define{Name: name, Params: params, Body: e, Src: body, File: path, Line: ln + 1}
+			cur = nil
 		case "lemma", "axiom":
 			i := strings.Index(rest, ":")
 			if i < 0 {
